@@ -374,14 +374,52 @@ func ruleFilterEmit(c *Ctx, rule string) {
 						}
 					}
 					tested := everyPathPasses(fn, x, viaCalls(isCmp), isEmptyEdge)
-					reports := false
-					for _, g := range privateReach(fn) {
-						for _, gb := range g.Blocks {
-							for _, gi := range gb.Instrs {
-								if gc, ok := gi.(*ssa.Call); ok && gc.Call.StaticCallee() == addHit {
-									reports = true
+					reachesAddHit := func(f *ssa.Function) bool {
+						for _, g := range privateReach(f) {
+							for _, gb := range g.Blocks {
+								for _, gi := range gb.Instrs {
+									if gc, ok := gi.(*ssa.Call); ok && gc.Call.StaticCallee() == addHit {
+										return true
+									}
 								}
 							}
+						}
+						return false
+					}
+					reports := reachesAddHit(fn)
+					// the reset sits in a small helper of the package (tube.restart(q)): what matters is what every
+					// caller has done before calling it
+					if !tested && !empty && fn.Object() != nil && !fn.Object().Exported() {
+						sites, all, allReport, allEmpty := 0, true, true, true
+						for _, g := range srcFuncs(sp) {
+							for _, gb := range g.Blocks {
+								for _, gi := range gb.Instrs {
+									ci, ok := gi.(*ssa.Call)
+									if !ok || ci.Call.StaticCallee() != fn {
+										continue
+									}
+									sites++
+									if !everyPathPasses(g, ci, viaCalls(isCmp), isEmptyEdge) {
+										all = false
+									}
+									if !reachesAddHit(g) {
+										allReport = false
+									}
+									e := false
+									for _, bf := range branchesAt(gb) {
+										if isEmptyEdge(bf) {
+											e = true
+										}
+									}
+									if !e {
+										allEmpty = false
+									}
+								}
+							}
+						}
+						if sites > 0 {
+							tested, reports = all, allReport
+							empty = allEmpty
 						}
 					}
 					switch {
